@@ -284,7 +284,21 @@ func vfFamCGenLocal(t *rapid.T) vfFamCLocal {
 				c.PT = pts.free(t, "localPT")
 				pts.take(c.PT, kind+c.ident())
 			}
-			out = append(out, c)
+			// "Lots of users use formats without setting clock rate or channels" (internal/fmtp):
+			// a registration that leaves them 0 means the documented default (opus 48000/2,
+			// PCMU/PCMA 8000, everything else 90000). Only codecs covered by that table.
+			reg := c
+			if _, ok := vfFamCDefaultClock(kind, c.Name); ok && rapid.IntRange(0, 4).Draw(t, "localShortForm") == 0 {
+				switch rapid.IntRange(0, 2).Draw(t, "shortFormWhat") {
+				case 0:
+					reg.Clock = 0
+				case 1:
+					reg.Ch = 0
+				default:
+					reg.Clock, reg.Ch = 0, 0
+				}
+			}
+			out = append(out, reg)
 			if kind == "video" && !strings.Contains(c.Name, "fec") && rapid.IntRange(0, 2).Draw(t, "localRTX") == 0 {
 				r := vfFamCCodec{Name: "rtx", Clock: 90000, Fmtp: fmt.Sprintf("apt=%d", c.PT)}
 				r.PT = c.PT + 1
@@ -300,6 +314,45 @@ func vfFamCGenLocal(t *rapid.T) vfFamCLocal {
 	l.Audio = pick("audio", vfFamCAudioPalette, 1, 4)
 	l.Video = pick("video", vfFamCVideoPalette, 1, 6)
 	return l
+}
+
+// vfFamCDefaultClock is the documented default table for registrations without a clock rate
+// (comment and table in internal/fmtp/fmtp.go); ok=false for codecs whose real clock rate the
+// table would get wrong (G722, red), which therefore are never registered the short way.
+func vfFamCDefaultClock(kind, name string) (uint32, bool) {
+	switch strings.ToLower(kind + "/" + name) {
+	case "audio/opus":
+		return 48000, true
+	case "audio/pcmu", "audio/pcma":
+		return 8000, true
+	case "audio/g722", "audio/red":
+		return 0, false
+	}
+	if kind == "video" && !strings.EqualFold(name, "rtx") {
+		return 90000, true
+	}
+	return 0, false
+}
+
+// vfFamCDefaultChannels: opus defaults to 2 channels, everything else to "omitted" (= 1).
+func vfFamCDefaultChannels(kind, name string) uint16 {
+	if strings.EqualFold(kind+"/"+name, "audio/opus") {
+		return 2
+	}
+	return 0
+}
+
+// vfFamCLongForm fills a short-form local registration in from the documented defaults.
+func vfFamCLongForm(kind string, c vfFamCCodec) vfFamCCodec {
+	if c.Clock == 0 {
+		if d, ok := vfFamCDefaultClock(kind, c.Name); ok {
+			c.Clock = d
+		}
+	}
+	if c.Ch == 0 {
+		c.Ch = vfFamCDefaultChannels(kind, c.Name)
+	}
+	return c
 }
 
 func vfFamCRecase(t *rapid.T, s string) string {
@@ -430,7 +483,7 @@ func (g *vfFamCOfferGen) codec(kind string) vfFamCCodec {
 		}
 	}
 	if len(loc) > 0 && rapid.IntRange(0, 9).Draw(t, "fromLocal") < 7 {
-		c = rapid.SampledFrom(loc).Draw(t, "localCodec")
+		c = vfFamCLongForm(kind, rapid.SampledFrom(loc).Draw(t, "localCodec")) // a remote always writes the full rtpmap
 		fromLocal = true
 	} else if kind == "audio" {
 		c = rapid.SampledFrom(vfFamCAudioPalette).Draw(t, "paletteA")
